@@ -157,6 +157,13 @@ where
     T: Real + RealAngle + Into<f64> + Powi + Arithmetics + Clone,
 {
     fn from_color_unclamped(color: Lchuv<Wp, T>) -> Self {
+        // The max chroma is zero for black, which would make the saturation
+        // undefined. It's set to zero, like in the HSLuv reference
+        // implementation.
+        if color.l.clone().into() < 1e-8 {
+            return Hsluv::new(color.hue, T::from_f64(0.0), color.l);
+        }
+
         // convert the chroma to a saturation based on the max
         // saturation at a particular hue.
         let max_chroma =
